@@ -132,8 +132,18 @@ class Index(object):
             for a in node.names:
                 mod.imports[a.asname or a.name] = ('from', base, a.name)
         elif isinstance(node, ast.Try):
-            for st in node.body:
-                self._index_stmt(mod, st)
+            # `try: from itertools import izip as zip  except ImportError: xrange = range`:
+            # under Python 3 the import fails and the handler runs
+            py2_only = any(isinstance(st, ast.ImportFrom) and st.module == 'itertools' and
+                           any(a.name in ('izip', 'imap', 'ifilter', 'izip_longest')
+                               for a in st.names) for st in node.body)
+            if py2_only:
+                for h in node.handlers:
+                    for st in h.body:
+                        self._index_stmt(mod, st)
+            else:
+                for st in node.body:
+                    self._index_stmt(mod, st)
         elif isinstance(node, ast.If):
             for st in node.body:
                 self._index_stmt(mod, st)
